@@ -31,7 +31,9 @@ ALPHA = {"ip": IP_ALPHA, "ble": BLE_ALPHA, "coap": COAP_ALPHA}
 CORE = {"ip": ["S1.0", "N", "R0", "F1", "C", "X", "RC"],
         "ble": ["S30.1", "N", "R0", "F1", "C", "X", "RC"],
         "coap": ["S1.0", "N", "R0", "F1", "C", "X", "T"]}
-COAP_EVT = ["EN", "ER0", "EF1", "EC", "S1.0", "N"]     # event channel interleaved with a request/response
+COAP_EVT = ["EN", "EM", "EU", "EL0", "EL1", "ER0", "ER1", "EC", "EF1"]     # event channel incl. processing failures
+# BLE GATT faults: write of fragment j refused with the link staying up (W) / dropping (V), read errors (T, TB, D)
+BLE_FAULT = ["S1.0", "S30.1", "N", "W1.0.0", "W30.1.0", "W30.1.1", "V30.1.0", "V30.1.1", "TB", "T", "D", "RC", "X"]
 
 
 def parse_ev(t):
@@ -39,8 +41,13 @@ def parse_ev(t):
         # glued delivery (read segmentation): sub-events joined by "+", "@c" = the read is cut c bytes into the last frame
         body, _, cut = t.partition("@")
         return ("G", [parse_ev(x) for x in body.split("+")], int(cut) if cut else 0)
-    if t in ("N", "C", "X", "T", "D", "RC", "RD", "EN", "EC"):
+    if t in ("N", "C", "X", "T", "TB", "D", "RC", "RD", "EN", "EC", "EM", "EU"):
         return (t, 0, 0)
+    if t.startswith("EL"):
+        return ("EL", int(t[2:]), 0)
+    if t[0] in "WV":
+        n, c, j = t[1:].split(".")
+        return (t[0], (int(n), int(c)), int(j))
     if t.startswith("ER"):
         return ("ER", int(t[2:]), 0)
     if t.startswith("EF"):
@@ -58,7 +65,21 @@ def model_tokens(h):
     out = []
     for t in h:
         out += t.partition("@")[0].split("+") if ("+" in t or "@" in t) else [t]
-    return out
+    return [MODEL_TOKEN(t) for t in out]
+
+
+def MODEL_TOKEN(t):
+    """Harness-only variants of one model event: how a read fails (TB: BleakError, T: TimeoutError), whether the
+    link drops with a refused write (V) or stays up (W), and how a CoAP event is processed after it was
+    decrypted (EM: two entries; EU: undecodable 2nd value; EL<j>: the listener raises at entry j) - processing
+    does not touch the counters in the model: the datagram was accepted."""
+    if t == "TB":
+        return "T"
+    if t[0] == "V":
+        return "W" + t[1:]
+    if t in ("EM", "EU") or t.startswith("EL"):
+        return "EN"
+    return t
 
 
 DIRS = {"c2a": "c", "a2c": "a", "evt": "e"}
@@ -540,8 +561,19 @@ class FakeGatt:
     async def write_gatt_char(self, handle, data, response=None):
         if handle is self.pv_handle:
             self.run.pv_write(bytes(data))
-        else:
-            self.run.written(bytes(data))
+            return
+        data = bytes(data)
+        pt = TRACE.ct2pt.get(data)
+        if pt is not None and not (pt[0] & 0x80):
+            self.run.widx = 0                      # first fragment of a request
+        j, self.run.widx = self.run.widx, self.run.widx + 1
+        fault = self.run.cur_wfault
+        if fault is not None and fault[0] == j:
+            from bleak.exc import BleakError
+            if fault[1]:
+                self.drop()                        # the link goes down with the write
+            raise BleakError("write refused")      # nothing reaches the accessory
+        self.run.written(data)
 
     async def read_gatt_char(self, handle):
         if handle is self.pv_handle:
@@ -595,6 +627,8 @@ class BleRun:
         self.char = types.SimpleNamespace(service=types.SimpleNamespace(type="svc"), type="chr", iid=7)
         self.reads_done = 0
         self.conts = []
+        self.wfaults = []        # per request: None or (index of the refused write, link drops)
+        self.widx = 0
         self.cur_tid = 0
         self.cache = {}
         self.old_cache = {}
@@ -696,9 +730,11 @@ class BleRun:
             for sub in a:
                 self.step(sub)
             return
-        if k == "S":
-            self.conts.append(b)
-            self.reqs.start(self.epoch, self.pairing._async_request(self.opcode(), self.char, b"y" * a))
+        if k in ("S", "W", "V"):
+            (n, cont), fault = ((a, b), None) if k == "S" else (a, (b, k == "V"))
+            self.conts.append(cont)
+            self.wfaults.append(fault)
+            self.reqs.start(self.epoch, self.pairing._async_request(self.opcode(), self.char, b"y" * n))
         elif k in ("N", "R", "F", "O", "C"):
             if self.reading():
                 if k == "N":
@@ -726,9 +762,9 @@ class BleRun:
             t = self.reqs.inflight()
             if t is not None:
                 t.cancel()
-        elif k == "T":
+        elif k in ("T", "TB"):
             if self.reading():
-                self.client.read_waiter.set_exception(asyncio.TimeoutError())
+                self.client.read_waiter.set_exception(asyncio.TimeoutError() if k == "T" else BleakError("read failed"))
         elif k == "D":
             if self.client is not None and self.client.is_connected:
                 w = self.client.read_waiter
@@ -739,6 +775,13 @@ class BleRun:
             self.reconnect(decline=(k == "RD"))
         settle(self.loop)
         self.reqs.collect()
+
+    @property
+    def cur_wfault(self):
+        for rid, ep, t in self.reqs.tasks:
+            if not t.done():
+                return self.wfaults[rid]
+        return None
 
     @property
     def cur_cont(self):
@@ -790,19 +833,34 @@ class CoapRun:
         self.acc[e] = (aead(ka), aead(ke))
         self.stub = StubCoap(self)
         self.ctx = self.cc.EncryptionContext(LoggedAead(ka), LoggedAead(kc), LoggedAead(ke), "coap://[fe80::1]:5683/", self.stub)
-        owner = types.SimpleNamespace(event_received=self.got_events.append)
+        owner = types.SimpleNamespace(event_received=self._listener)
         info = types.SimpleNamespace(find_characteristic_by_iid=lambda iid: None)
         self.conn = types.SimpleNamespace(enc_ctx=self.ctx, owner=owner, info=info)
         self.res = self.cc.EventResource(self.conn)
         self.srv = self.esrv = 0
         self.old_cache, self.cache = self.cache, {}
 
-    def frame(self, d, i):
+    def _listener(self, ev):
+        """The pairing's event_received; may be scripted to raise at the j-th entry of the datagram being processed."""
+        j, self.entries_seen = self.entries_seen, self.entries_seen + 1
+        if self.raise_at is not None and j == self.raise_at:
+            raise RuntimeError("subscriber callback failed")
+        self.got_events.append(ev)
+
+    entries_seen = 0
+    raise_at = None
+
+    def frame(self, d, i, kind="EN"):
         if (d, i) not in self.cache:
             if d == "a":
                 pt = b"resp %d.%d" % (self.epoch, i)
-            else:
+            elif kind == "EN":
                 pt = struct.pack("<BHH", 0, i & 0xFFFF, 0)
+            elif kind == "EU":
+                # two entries; the second announces a value that is not a TLV with a Value item
+                pt = struct.pack("<BHH", 0, i & 0xFFFF, 0) + struct.pack("<BHH", 0, (i + 1000) & 0xFFFF, 3) + b"\x09\x01\x00"
+            else:
+                pt = struct.pack("<BHH", 0, i & 0xFFFF, 0) + struct.pack("<BHH", 0, (i + 1000) & 0xFFFF, 0)
             ct = self.acc[self.epoch][0 if d == "a" else 1].encrypt(nonce_bytes(i), pt, b"")
             TRACE.frames[ct] = (self.epoch, d, i)
             self.cache[(d, i)] = ct
@@ -815,10 +873,14 @@ class CoapRun:
         from aiocoap.numbers.codes import Code
         self.stub.waiter.set_result(types.SimpleNamespace(code=Code.CHANGED, payload=payload))
 
-    def event(self, payload):
+    def event(self, payload, raise_at=None):
+        self.entries_seen, self.raise_at = 0, raise_at
         t = self.loop.create_task(self.res.render_put(types.SimpleNamespace(payload=payload)))
         settle(self.loop)
-        t.result()
+        self.raise_at = None
+        if not t.done():
+            raise RuntimeError("render_put did not complete")
+        t.exception()         # a processing error is the resource's business (aiocoap answers 5.00); counters are what matters
 
     def step(self, ev):
         from aiocoap.error import NetworkError
@@ -860,10 +922,11 @@ class CoapRun:
             settle(self.loop)
             self.reqs.collect()
             self.new_session()
-        elif k in ("EN", "ER", "EF"):
-            i = self.esrv if k == "EN" else (a if k == "ER" else self.esrv + a)
+        elif k in ("EN", "ER", "EF", "EM", "EU", "EL"):
+            i = a if k == "ER" else (self.esrv + a if k == "EF" else self.esrv)
             self.esrv = max(self.esrv, i + 1)
-            self.event(self.frame("e", i))
+            kind = {"EM": "EM", "EU": "EU", "EL": "EM"}.get(k, "EN")
+            self.event(self.frame("e", i, kind), raise_at=a if k == "EL" else None)
         elif k == "EC":
             f = bytearray(self.frame("e", self.esrv))
             self.esrv += 1
@@ -1018,10 +1081,14 @@ def random_histories(transport, r, count, maxlen):
             else:
                 kinds = ["S", "N", "R", "F", "C", "X", "T", "RC", "RD", "O", "D"]
                 if transport == "coap":
-                    kinds += ["EN", "ER", "EF", "EC", "R", "F", "R"]
+                    kinds += ["EN", "ER", "EF", "EC", "R", "F", "R", "EM", "EU", "EL0", "EL1", "ER"]
+                if transport == "ble":
+                    kinds += ["TB", "W", "W", "V"]
                 k = r.choice(kinds)
                 if k == "S":
                     h.append(f"S{r.choice([0, 1, 30, 1024, 1025])}.{r.choice([0, 1])}")
+                elif k in ("W", "V"):
+                    h.append(f"{k}{r.choice([0, 1, 30, 46, 70])}.{r.choice([0, 1])}.{r.choice([0, 0, 1, 2])}")
                 elif k in ("R", "O", "ER"):
                     h.append(k + str(r.choice([0, 0, 1, 2, 3, 5, 6, 7, 12])))
                 elif k in ("F", "EF"):
@@ -1043,6 +1110,8 @@ DIRECTED = {
         ["S1.0", "X", "S1.0", "F1"],                         # forward recovery after a cancelled request
         SIX + ["S1.0", "R0", "S1.0", "R1"],                  # replay after the zero reset
         ["EN", "EN", "ER0", "EC", "ER1", "EN", "EF2", "EN"],
+        # event processing fails after the datagram was decrypted (listener raises at the 2nd entry / bad 2nd value)
+        ["EL1", "ER0", "EN"], ["EN", "EU", "ER1", "ER1", "EN"], ["EM", "EL0", "ER1", "ER0", "EN", "ER2"],
     ],
     "ip": [
         ["S1025.0", "N", "R0", "S1.0", "RC", "S1.0", "O0"],
@@ -1060,6 +1129,9 @@ DIRECTED = {
         ["S1.0", "N", "D", "RC", "S1.0", "N", "S1.0", "O0", "RC", "S30.1", "N", "N", "X", "RD", "S1.0", "N", "S1.0", "O0"],
         ["S1.0", "N", "S1.0", "N", "X", "RC", "S1.0", "O1"],
         ["D", "RD", "S1.0", "N", "D", "RC", "S1.0", "N", "D", "RC", "S1.0", "O0"],
+        # GATT faults: first / later fragment refused with the link up, then more requests on the same connection
+        ["S1.0", "N", "W30.1.0", "S30.1", "N", "N"], ["W30.1.1", "S1.0", "RC", "S1.0", "N"],
+        ["S1.0", "V30.1.0", "S1.0", "RC", "S1.0", "N"], ["S30.1", "N", "TB", "S1.0", "RC", "W1.0.0", "S1.0"],
     ],
 }
 
@@ -1130,6 +1202,8 @@ def run(ctx):
             hists += [list(t) for t in itertools.product(COAP_EVT, repeat=core_depth)]
         if transport == "ip":
             hists += list(exhaustive(IP_SEG, full_depth))
+        if transport == "ble":
+            hists += list(exhaustive(BLE_FAULT, full_depth))
         n_core = len(hists) - n_full
         hists += DIRECTED[transport]
         hists += random_histories(transport, rng(seed, "c06" + transport), n_rand, 60)
@@ -1181,8 +1255,9 @@ def run(ctx):
         "per transport: every history of length <= %d over its 12-symbol alphabet %s; every history of length %d over the "
         "7-symbol core %s; CoAP additionally every history of length %d over the event alphabet %s; IP additionally every "
         "history of length <= %d over the read-segmentation alphabet %s (a+b@c = frames glued into one TCP read that ends c "
-        "bytes into the last frame, remainder in a second read)"
-        % (full_depth, ALPHA, core_depth, CORE, core_depth, COAP_EVT, full_depth, IP_SEG))
+        "bytes into the last frame, remainder in a second read); BLE additionally every history of length <= %d over the GATT "
+        "fault alphabet %s (W/V n.cont.j = write of fragment j refused with the link up / dropping, TB/T/D read faults)"
+        % (full_depth, ALPHA, core_depth, CORE, core_depth, COAP_EVT, full_depth, IP_SEG, full_depth, BLE_FAULT))
     cov.extra["case_counts"] = counts
     cov.extra["disagreements_checked"] = mismatches
     cov.extra["compared"] = "seal log, wire log, open attempts (nonce, success), accepted frame identities, per-request outcome class"
